@@ -236,21 +236,6 @@ Proof.
       rewrite number_mk_num by exact Hn. reflexivity.
 Qed.
 
-Lemma refines_addSym s id b : Inv s -> wf_op (OAddSym id b) -> refines s (OAddSym id b).
-Proof.
-  intros I [Hid Hb]. unfold refines. simpl. unfold addTermSym, s_add_term. rewrite new_term_abs by exact I.
-  destruct (setTerm_spec s id I Hid) as [[Hnew E]|[Hnew [s1 [E [I1 [T [N [R [Nx K]]]]]]]]]; rewrite E, Hnew; simpl.
-  - split; [reflexivity|]. split; [apply aeq_refl|]. split; [exact I|apply ec_ne_fault].
-  - destruct (I_next s1 I1) as [Np Na]. rewrite (mk_ptr_ok _ _ Na).
-    assert (I' : Inv (twrite (set_hp s1 (snd (halloc (OSym b) (hp s1)))) id (next (hp s1) + Theory_t_Symbol))).
-    { apply P_put_ptr; [exact I1| |lia|left; eauto]. rewrite T, aget_adel, Z.eqb_refl. reflexivity. }
-    simpl. split; [reflexivity|]. split; [|split; [exact I'|apply ec_ne_fault]].
-    apply (put_refines s s1 id _ _ (ASym b) I I1 T N R K (kept_alloc s1 _ I1) I').
-    unfold wview, view_word. cbv zeta. rewrite wtype_ptr by (auto; unfold Theory_t_Symbol; lia).
-    change (Theory_t_Symbol =? Theory_t_Number) with false. change (Theory_t_Symbol =? Theory_t_Symbol) with true. cbv iota.
-    rewrite getPtr_ptr by (auto; unfold Theory_t_Symbol; lia). rewrite hfind_alloc, Z.eqb_refl. rewrite cut0_nul_free by exact Hb. reflexivity.
-Qed.
-
 (* ---------- compound terms: allocate first, then setTerm; undo on refusal ---------- *)
 Lemma hfree_alloc_commute k a o h :
   next h =? a = false ->
@@ -347,6 +332,48 @@ Proof.
     rewrite getPtr_ptr by (auto; unfold Theory_t_Compound; lia). rewrite hfind_alloc, Z.eqb_refl. reflexivity.
 Qed.
 
+(* ---------- symbol terms (after c8d69a9): the same order as compound terms - copy first, then setTerm, undo on refusal ---------- *)
+Lemma addTermSym_unfold id b s :
+  addTermSym id b s =
+  match mk_ptr (next (hp s)) Theory_t_Symbol with
+  | Ok w =>
+      match setTerm id (set_hp s (snd (halloc (OSym b) (hp s)))) with
+      | Ok s1 => (0, twrite s1 id w)
+      | Err e => match hfree K_SYM (next (hp s)) (snd (halloc (OSym b) (hp s))) with
+                 | Ok h' => (e, set_hp (set_hp s (snd (halloc (OSym b) (hp s)))) h')
+                 | Err e' => (e', set_hp s (snd (halloc (OSym b) (hp s))))
+                 end
+      end
+  | Err e => match hfree K_SYM (next (hp s)) (snd (halloc (OSym b) (hp s))) with
+             | Ok h' => (e, set_hp (set_hp s (snd (halloc (OSym b) (hp s)))) h')
+             | Err e' => (e', set_hp s (snd (halloc (OSym b) (hp s))))
+             end
+  end.
+Proof. reflexivity. Qed.
+
+Lemma refines_addSym s id b : Inv s -> wf_op (OAddSym id b) -> refines s (OAddSym id b).
+Proof.
+  intros I [Hid Hb]. unfold refines. cbn [step s_step]. rewrite addTermSym_unfold. unfold s_add_term.
+  rewrite new_term_abs by exact I.
+  destruct (I_next s I) as [Np Na].
+  rewrite (mk_ptr_ok _ _ Na). rewrite (setTerm_alloc s id _ I).
+  destruct (setTerm_spec s id I Hid) as [[Hnew E]|[Hnew [s1 [E [I1 [T [N [R [Nx K]]]]]]]]]; rewrite E, Hnew.
+  - change K_SYM with (kind (OSym b)). rewrite (hfree_alloc _ _ (next_fresh s I)).
+    cbn [fst snd].
+    change (set_hp (set_hp s (snd (halloc (OSym b) (hp s)))) (mkh (cells (hp s)) (next (hp s) + ALIGN)))
+      with (set_hp s (mkh (cells (hp s)) (next (hp s) + ALIGN))).
+    split; [reflexivity|]. split; [apply abs_bump|]. split; [apply (P_bump s I)|apply ec_ne_fault].
+  - cbn [fst snd]. rewrite <- Nx.
+    assert (I' : Inv (twrite (set_hp s1 (snd (halloc (OSym b) (hp s1)))) id (next (hp s1) + Theory_t_Symbol))).
+    { apply P_put_ptr; [exact I1| |lia|left; eauto]. rewrite T, aget_adel, Z.eqb_refl. reflexivity. }
+    split; [reflexivity|]. split; [|split; [exact I'|apply ec_ne_fault]].
+    destruct (I_next s1 I1) as [Np1 Na1].
+    apply (put_refines s s1 id _ _ (ASym b) I I1 T N R K (kept_alloc s1 _ I1) I').
+    unfold wview, view_word. cbv zeta. rewrite wtype_ptr by (auto; unfold Theory_t_Symbol; lia).
+    change (Theory_t_Symbol =? Theory_t_Number) with false. change (Theory_t_Symbol =? Theory_t_Symbol) with true. cbv iota.
+    rewrite getPtr_ptr by (auto; unfold Theory_t_Symbol; lia). rewrite hfind_alloc, Z.eqb_refl. rewrite cut0_nul_free by exact Hb. reflexivity.
+Qed.
+
 Lemma refines_removeTerm s id : Inv s -> refines s (ORemoveTerm id).
 Proof.
   intros I. unfold refines. simpl. unfold removeTermOp.
@@ -388,9 +415,43 @@ Qed.
 Lemma adel_adel {V} (m : list (Z * V)) k : adel (adel m k) k = adel m k.
 Proof. apply adel_absent. rewrite aget_adel, Z.eqb_refl. reflexivity. Qed.
 
+(* addElement (after 7625ba8) allocates the new element BEFORE it frees the old one.  Fresh addresses are never live, so
+   this is the same state as freeing first and allocating afterwards (addElement_seq, the order before the repair) *)
+Definition addElement_seq (id : Z) (ts : list Z) (c : Z) (s : st) : Z * st :=
+  let prep : R st :=
+    if negb (hasElement s id) then Ok (set_elems s (elems s) (Z.max (nelems s) (id + 1)))
+    else if isNewElement s id then Err EC_REDEF_ELEM
+    else match hfree K_ELEM (eread s id) (hp s) with Ok h => Ok (set_hp s h) | Err e => Err e end in
+  match prep with
+  | Ok s1 =>
+      let '(a, h) := halloc (OElem ts (if c =? 0 then None else Some c)) (hp s1) in
+      (0, set_hp (set_elems s1 (aset (elems s1) id a) (nelems s1)) h)
+  | Err e => (e, s)
+  end.
+
+Lemma addElement_seq_eq s id ts c : Inv s -> addElement id ts c s = addElement_seq id ts c s.
+Proof.
+  intro I. unfold addElement, addElement_seq.
+  set (o := OElem ts (if c =? 0 then None else Some c)).
+  destruct (hasElement s id) eqn:H; cbn [negb].
+  - destruct (isNewElement s id); [reflexivity|].
+    pose proof H as H0. unfold hasElement in H0. apply andb_true_iff in H0. destruct H0 as [_ Hnz].
+    apply negb_true_iff in Hnz. rewrite Hnz.
+    apply hasElement_iff in H; [|exact I]. destruct H as [p Hp]. unfold eread in *. rewrite Hp in *.
+    destruct (I_edom s I _ _ Hp) as [Rg [ts0 [co Hc]]].
+    destruct (P_rm_e s id p I Hp) as [h1 [F [N1 _]]].
+    unfold halloc at 1. cbn [fst snd].
+    change (mkh ((next (hp s), o) :: cells (hp s)) (next (hp s) + ALIGN)) with (snd (halloc o (hp s))).
+    rewrite (hfree_alloc_commute K_ELEM p o (hp s) (live_ne_next s p _ I Hc)). rewrite F.
+    unfold halloc. cbn [hp set_hp set_elems elems nelems terms nterms atoms fatom fterm felem fst snd]. rewrite N1. reflexivity.
+  - assert (Ha : aget (elems s) id = None) by (now apply hasElement_false).
+    unfold eread. cbn [elems set_elems]. rewrite Ha. change (0 =? 0) with true. cbv iota.
+    destruct (halloc o (hp (set_elems s (elems s) (Z.max (nelems s) (id + 1))))) as [a h]. reflexivity.
+Qed.
+
 Lemma refines_addElem s id ts c : Inv s -> wf_op (OAddElem id ts c) -> refines s (OAddElem id ts c).
 Proof.
-  intros I Hid. simpl in Hid. unfold refines. cbn [step s_step]. unfold addElement. rewrite new_elem_abs by exact I.
+  intros I Hid. simpl in Hid. unfold refines. cbn [step s_step]. rewrite (addElement_seq_eq s id ts c I). unfold addElement_seq. rewrite new_elem_abs by exact I.
   set (o := OElem ts (if c =? 0 then None else Some c)).
   assert (EV : forall h, eview (snd (halloc o h)) (next h) = Some (mke ts c)).
   { intro h. unfold eview. rewrite hfind_alloc, Z.eqb_refl. unfold o. simpl. destruct (Z.eqb_spec c 0); simpl; congruence. }
